@@ -60,6 +60,12 @@ mod sync;
 )]
 pub struct Timestamp(u64);
 
+#[cfg(feature = "verif_hooks")]
+impl Timestamp {
+    /// The raw counter (verification harness only).
+    pub(super) const fn verif_raw(self) -> u64 { self.0 }
+}
+
 #[derive(
     Debug, Clone, Copy, PartialEq, Eq, PartialOrd, Ord, Hash, Encode, Decode,
 )]
